@@ -1,6 +1,7 @@
 package main
 
 import (
+	"time"
 	"fmt"
 	"math"
 	"strings"
@@ -269,5 +270,66 @@ func c14RaceScenarios(tier string) []*Scenario {
 		r.Flush()
 		_ = r.Close()
 	}
-	return []*Scenario{sc}
+	// M5: four goroutines, released together, each report distinct values through the SAME counter, gauge and timer
+	// handles; after Close every value must have arrived exactly once
+	sc5 := &Scenario{Property: "C14", Name: "M5-shared-handles-gated-start"}
+	sc5.Body = func(x *Run) {
+		s := newFastSink()
+		x.Cleanup = append(x.Cleanup, s.close)
+		r, err := m3.NewReporter(m3.Options{HostPorts: []string{s.addr}, Service: "svc", Env: "test", MaxQueueSize: 4096})
+		if err != nil {
+			return
+		}
+		c := r.AllocateCounter("c", map[string]string{"a": "b"})
+		g := r.AllocateGauge("g", nil)
+		tm := r.AllocateTimer("t", nil)
+		gate := newGate(4)
+		var ths []*rt.Thread
+		for i := 0; i < 4; i++ {
+			i := i
+			ths = append(ths, rt.GoNamed("user", func() {
+				gate()
+				for k := 0; k < 8; k++ {
+					v := int64(i*1000 + k + 1)
+					c.ReportCount(v)
+					g.ReportGauge(float64(v))
+					tm.ReportTimer(time.Duration(v))
+				}
+			}))
+		}
+		for _, t := range ths {
+			t.Join()
+		}
+		if err := r.Close(); err != nil {
+			return
+		}
+		seen := map[string]int{}
+		for _, dg := range s.drainUntil(func(d [][]byte) bool { return userMetrics("compact", d) >= 96 }) {
+			msg, err := decodeMessage("compact", dg)
+			if err != nil {
+				continue
+			}
+			for _, m := range msg.Batch.Metrics {
+				switch m.Name {
+				case "c":
+					seen[fmt.Sprint("c", m.Value.Count)]++
+				case "g":
+					seen[fmt.Sprint("g", int64(m.Value.Gauge))]++
+				case "t":
+					seen[fmt.Sprint("t", m.Value.Timer)]++
+				}
+			}
+		}
+		for i := 0; i < 4; i++ {
+			for k := 0; k < 8; k++ {
+				for _, kind := range []string{"c", "g", "t"} {
+					if n := seen[fmt.Sprint(kind, i*1000+k+1)]; n != 1 {
+						x.failf("value-reported-through-shared-handle-not-delivered-exactly-once", "%s value %d reported once by goroutine %d through a handle shared by four goroutines arrived %d times", kind, i*1000+k+1, i, n)
+						return
+					}
+				}
+			}
+		}
+	}
+	return []*Scenario{sc, sc5}
 }
